@@ -38,6 +38,7 @@ func checkC07(c *Ctx) {
 	r.NotDecided = []string{"equality with a reference model over operation histories", "Go map / sync.Map semantics", "Walk visiting order"}
 	c.skipReadRule("R07.2")
 	for _, b := range backends {
+		c.c07CtorShardMaps(b)
 		c.c07Index(b)
 		c.c07Read(b)
 		c.c07Delete(b)
@@ -70,6 +71,131 @@ func checkC07(c *Ctx) {
 	c.borrow("C06", func() { c.c06WithTTL(); c.c06Accessors() }, func(o *coreObl) (string, bool) {
 		return "R07.5", o.Rule == "R06.3" || o.Rule == "R06.7" && (o.Construct == "TTL" || o.Construct == "SkipRead")
 	})
+}
+
+// c07CtorShardMaps: a shard whose map was never made panics on the first Write that hashes into it ("assignment to entry in nil
+// map"): the constructor's loop that makes the maps covers the whole shard array — `for i := 0; i < N; i++` with N the array's
+// length (or its declared size), or a range over the array.
+func (c *Ctx) c07CtorShardMaps(b BK) {
+	r := c.R
+	if !b.Sharded {
+		return
+	}
+	ctor := "New" + b.Wrapper
+	fd, _ := c.funcDecl(ctor)
+	if fd == nil {
+		r.Unknown("R07.1", ctor+":shard-maps", "does not resolve")
+		return
+	}
+	info := c.Pkg.TypesInfo
+	n := c.shardCount(b)
+	found, ok := false, false
+	for _, bd := range c.reachBodies(fd, 2) {
+		ast.Inspect(bd.Body, func(x ast.Node) bool {
+			var body *ast.BlockStmt
+			whole := false
+			switch l := x.(type) {
+			case *ast.RangeStmt:
+				body = l.Body
+				if sel, isSel := ast.Unparen(l.X).(*ast.SelectorExpr); isSel {
+					if sl := info.Selections[sel]; sl != nil && sl.Kind() == types.FieldVal && selFieldName(sl) == "hashedBuckets" {
+						whole = true
+					}
+				}
+			case *ast.ForStmt:
+				body = l.Body
+				// for i := 0; i < N; i++
+				init, _ := l.Init.(*ast.AssignStmt)
+				cond, _ := l.Cond.(*ast.BinaryExpr)
+				post, _ := l.Post.(*ast.IncDecStmt)
+				if init != nil && cond != nil && post != nil && len(init.Rhs) == 1 && cond.Op == token.LSS && post.Tok == token.INC {
+					if tv, ok := info.Types[init.Rhs[0]]; ok && tv.Value != nil && tv.Value.ExactString() == "0" {
+						if tv2, ok := info.Types[cond.Y]; ok && tv2.Value != nil && tv2.Value.ExactString() == fmt.Sprint(n) {
+							whole = true
+						}
+						if call, isCall := ast.Unparen(cond.Y).(*ast.CallExpr); isCall {
+							if id, isId := call.Fun.(*ast.Ident); isId && id.Name == "len" && len(call.Args) == 1 {
+								if sel, isSel := ast.Unparen(call.Args[0]).(*ast.SelectorExpr); isSel {
+									if sl := info.Selections[sel]; sl != nil && selFieldName(sl) == "hashedBuckets" {
+										whole = true
+									}
+								}
+							}
+						}
+					}
+				}
+			default:
+				return true
+			}
+			makes := false
+			ast.Inspect(body, func(y ast.Node) bool {
+				as, isAs := y.(*ast.AssignStmt)
+				if !isAs || len(as.Lhs) != 1 || len(as.Rhs) != 1 {
+					return true
+				}
+				sel, isSel := ast.Unparen(as.Lhs[0]).(*ast.SelectorExpr)
+				if !isSel {
+					return true
+				}
+				if sl := info.Selections[sel]; sl == nil || sl.Kind() != types.FieldVal || selFieldName(sl) != "data" {
+					return true
+				}
+				if call, isCall := ast.Unparen(as.Rhs[0]).(*ast.CallExpr); isCall {
+					if id, isId := call.Fun.(*ast.Ident); isId && id.Name == "make" {
+						makes = true
+					}
+				}
+				if _, isLit := ast.Unparen(as.Rhs[0]).(*ast.CompositeLit); isLit {
+					makes = true
+				}
+				return true
+			})
+			if makes {
+				found = true
+				if whole {
+					ok = true
+				}
+			}
+			return true
+		})
+	}
+	if !found || !ok {
+		// maps made on demand by the writers (nil until the first Write of a shard) are another valid design
+		lazy := false
+		c.eachFuncDecl(func(d *ast.FuncDecl, fn *types.Func) {
+			if c.constructionOnly()(fn) || !sameRecvNamed(fn, b.Name) && !sameRecvNamed(fn, "hashedBucket") && !sameRecvNamed(fn, "hashedBucketOf") {
+				return
+			}
+			ast.Inspect(d.Body, func(y ast.Node) bool {
+				as, isAs := y.(*ast.AssignStmt)
+				if !isAs || len(as.Lhs) != 1 || len(as.Rhs) != 1 {
+					return true
+				}
+				if sel, isSel := ast.Unparen(as.Lhs[0]).(*ast.SelectorExpr); isSel {
+					if sl := info.Selections[sel]; sl != nil && sl.Kind() == types.FieldVal && selFieldName(sl) == "data" {
+						if call, isCall := ast.Unparen(as.Rhs[0]).(*ast.CallExpr); isCall {
+							if id, isId := call.Fun.(*ast.Ident); isId && id.Name == "make" {
+								lazy = true
+							}
+						}
+					}
+				}
+				return true
+			})
+		})
+		if lazy {
+			r.OK("R07.1", ctor+":shard-maps", "shard maps are made on demand by the writers")
+			return
+		}
+	}
+	switch {
+	case !found:
+		r.Bad("R07.1", ctor, "shard-maps-not-made", c.Pos(fd.Pos()), "the constructor has no loop that makes the shards' maps: the first Write panics on a nil map", nil)
+	case !ok:
+		r.Bad("R07.1", ctor, "shard-maps-partial", c.Pos(fd.Pos()), "the loop that makes the shards' maps does not run over the whole shard array (for i := 0; i < N; i++ / range): a Write hashing into an unmade shard panics", nil)
+	default:
+		r.OK("R07.1", ctor+":shard-maps", "every shard's map is made by the constructor")
+	}
 }
 
 // shardCount returns the length of the hashedBuckets array.
